@@ -35,6 +35,16 @@ type World struct {
 	lastSubs   map[uuid.UUID]*ent.Subscription
 	lastMsgs   map[uuid.UUID]*ent.Message
 	lastTopics map[uuid.UUID]*ent.Topic
+	lastDump   string
+	api        *ApiWorld
+}
+
+// Api returns the handler-level view of this world.
+func (w *World) Api() *ApiWorld {
+	if w.api == nil {
+		w.api = NewApiWorld(w)
+	}
+	return w.api
 }
 
 // NewWorld must be called inside a synctest bubble.
@@ -171,5 +181,6 @@ func (w *World) Dump() string {
 		fmt.Fprintf(&sb, "id=%s,topic=%s,name=%s,created=%d,expires=%d,labels=%s,before=%d,acked=%s",
 			IdStr(s.ID), IdStr(s.TopicID), Enc(s.Name), ns(s.CreatedAt), ns(s.ExpiresAt), MapStr(s.Labels), ns(s.AckedMessagesBefore), IdList(sortIDs(s.AckedMessageIDs)))
 	}
-	return sb.String()
+	w.lastDump = sb.String()
+	return w.lastDump
 }
